@@ -459,6 +459,13 @@ pub fn run_scenario(sc: &Scenario, rng: &mut Rng) -> RunRecord {
                             continue;
                         }
                     }
+                    // a write the transport refused for now: let it through a little later
+                    let parked = pipe.st.lock().unwrap().wr_waker.is_some();
+                    if parked {
+                        tokio::time::sleep(Duration::from_millis(2)).await;
+                        pipe.wake_writer();
+                        continue;
+                    }
                     if now >= $target { break; }
                     let next_echo = echoes.first().map(|e| e.0).unwrap_or(u64::MAX);
                     let wake = $target.min(next_echo);
